@@ -9,6 +9,7 @@ from ..core import FUNC, call_attr, calls_in, const, dotted, is_const, kwarg, no
 from .c01 import _fmt_in
 
 EXPLANATION = [
+    'C02.shared-state: no class of the anchored modules keeps per-instance state in an object shared by all instances (an empty mutable container or synchronisation object as class-level default that is read through self and not rebound in __init__, or as a dataclass field default); process-wide registries are listed by name.',
     'C02.feed-contained: the error the push parser reports for an unknown type byte cannot tear the transport down at any site that feeds it (same rule as C17.feed-contained), so subsequently fed well-formed data is framed.',
     'C02.info-table: HCI_PACKET_INFO[type] = (length size, length offset, format) equals position and width of the length field in '
     'the header layout hci.py itself uses for that packet type.',
@@ -197,6 +198,20 @@ def usb_splitters(ctx):
         R.check((lo, ls) == (off, size), rule, f'bumble.transport.usb.{cls}', f'(offset {lo}, size {ls}) = HCI_PACKET_INFO[{t}]', f'{cls} frames with length at {lo} size {ls}; the common table says offset {off} size {size} for {t}', p.loc(ci.node))
         if src is not None:
             R.check(f'hci.{t}: {cls}(' in norm(src).replace('\n', ''), rule, f'bumble.transport.usb.UsbPacketSource | {t}', f'{cls} registered for {t}', f'{cls} is not registered for {t}', p.loc(src))
+    # what is fed to a splitter is what was received in this completion: the transfer buffer is a fixed-size buffer that is
+    # reused, so every use of transfer.getBuffer() is cut at transfer.getActualLength()
+    um = p.modules.get('bumble.transport.usb')
+    nb = 0
+    for c in (ast.walk(um.tree) if um else []):
+        if isinstance(c, ast.Call) and call_attr(c) == 'getBuffer':
+            nb += 1
+            par = getattr(c, '_parent', None)
+            obj = dotted(c.func.value)
+            ok = isinstance(par, ast.Subscript) and par.value is c and isinstance(par.slice, ast.Slice) and par.slice.lower is None and par.slice.step is None \
+                and isinstance(par.slice.upper, ast.Call) and call_attr(par.slice.upper) == 'getActualLength' and dotted(par.slice.upper.func.value) == obj
+            R.check(ok, rule, f'{p.qual_of(c)} | {obj}.getBuffer()', 'cut at getActualLength() of the same transfer',
+                    f'the whole transfer buffer of `{obj}` is used, not just the getActualLength() bytes received in this completion: stale and padding bytes are framed as packets', um.rel + f':{c.lineno}')
+    R.check(nb >= 1, rule, 'bumble.transport.usb | transfer buffers', f'{nb} use(s) of a transfer buffer', 'no use of transfer.getBuffer() found')
     feed = p.find('bumble.transport.usb.PacketSplitter.feed')
     init = p.find('bumble.transport.usb.PacketSplitter.__init__')
     if feed is None or init is None:
@@ -244,7 +259,13 @@ def feed_contained(ctx):
     c17.feed_contained(ctx, rule='C02.feed-contained')
 
 
+def shared_state_rule(ctx):
+    from ..shared_state import shared_state
+    shared_state(ctx, 'C02.shared-state', ['bumble.transport'])
+
+
 RULES = [
+    ('C02.shared-state', shared_state_rule),
     ('C02.feed-contained', feed_contained),
     ('C02.info-table', info_table),
     ('C02.pull-framers', pull_framers),
